@@ -291,3 +291,25 @@ Theorem C05_mapor_nonvacuous :
   movalspec_ok H K s = true.
 Proof. exact mapor_example. Qed.
 Print Assumptions C05_mapor_nonvacuous.
+
+(** T3 changes reads once a delivery overtakes: per-actor delivery order does NOT suffice for the
+    values of Map<_, Orswot> (known finding T3; replayed on the implementation by the check) *)
+Theorem C05_map_nested_remove_per_actor_refuted_witness :
+  let s0 : cmap orswot := mnew in
+  let opA := upd_or_add s0 0 0 1 in
+  let b := or_apply s0 opA in
+  let opB := upd_or_rm b 1 0 1 in
+  let c := or_apply s0 opB in
+  let opC : mop oop := rm_key oop c 0 in
+  let deliver := foldl or_apply s0 in
+  let causal := deliver [opA; opB; opC] in
+  let overtaking := deliver [opB; opC; opA] in
+  opA = MUp (Dot 0 1) 0 (OAdd (Dot 0 1) [1]) /\
+  opB = MUp (Dot 1 1) 0 (ORm {[ 0 := 1 ]} [1]) /\
+  opC = MRm {[ 1 := 1 ]} {[ 0 ]} /\
+  read_or causal 0 = Some [] /\
+  read_or overtaking 0 = Some [1] /\
+  mclock causal = mclock overtaking.
+Proof. exact map_T3_per_actor_refuted. Qed.
+Print Assumptions C05_map_nested_remove_per_actor_refuted_witness.
+
